@@ -25,7 +25,9 @@ SPEC['C03'] = ('Bottom-up build leaves every known task up to date', ['Local2', 
   ('C03_mixed_refuted', 'Findings', 'C03_mixed_refuted',
    'recorded finding (O4): with a top-down build between the change and its report, the bottom-up build executes nothing and a task stays stale'),
 ], 'PARTIAL + recorded finding. The global statement is decided by correspondence + the probe-session oracle.')
-SPEC['C04'] = ('Bottom-up build runs only affected tasks, once, in dependency order', ['Queue', 'Local'], [
+SPEC['C04'] = ('Bottom-up build runs only affected tasks, once, in dependency order', ['Queue', 'Local', 'BuJust'], [
+  ('C04_executions_justified_all_builds', 'BuJust', 'bottom_up_executions_justified', 'GLOBAL form of "only affected tasks run": for ALL programs, checkers, fuel, ALL worlds and change sets, in the event stream of ANY bottom-up build (completed or aborted) every task execution is of a task that was scheduled earlier in this build or had no output when the build started (required for the first time), and every scheduling event is directly preceded by the end of a dependency check of that task whose checker reported inconsistency or failed (SJ)'),
+  ('C04_unaffected_not_executed', 'BuJust', 'unaffected_not_executed', 'contrapositive: a task that has an output when the build starts and is not scheduled in the build (none of its recorded dependencies is reported inconsistent, including when an executed dependency produced an output its checker accepts) is not executed in the build'),
   ('C04_pop_max', 'Queue', 'queue_pop_max', 'Queue::pop yields a queued task of maximal topological rank (no queued task it depends on remains), removes exactly it, and touches nothing else'),
   ('C04_pop_least', 'Queue', 'pop_least_from_max', 'pop_least_task_with_dependency_from yields the maximal-rank queued task among src and its transitive dependencies'),
   ('C04_pop_least_none', 'Queue', 'pop_least_from_none', 'and answers None only if no queued task is src or one of its transitive dependencies'),
